@@ -825,7 +825,12 @@ func (n *Node) scheduleReset() {
 	}
 	var d int64
 	nh := n.tip().Idx + 1
-	if idx := s.sc.IndexAt(nh, n.ident); s.sc.SlowNode > 0 && n.ident == s.sc.SlowNode-1 && idx != primaryOf(nh, 0, len(s.sc.ValsAt(nh))) && idx != primaryOf(nh+1, 0, len(s.sc.ValsAt(nh+1))) {
+	if s.sc.SlowNode > 0 && n.ident == s.sc.SlowNode-1 && n.tip().Idx < s.st.MaxHeight {
+		// the slow application is behind the others already: it catches up at once, so that
+		// the lag of one slow Reset never adds up to the next one (and never reaches a height
+		// it has to propose at)
+		d = 0
+	} else if idx := s.sc.IndexAt(nh, n.ident); s.sc.SlowNode > 0 && n.ident == s.sc.SlowNode-1 && idx != primaryOf(nh, 0, len(s.sc.ValsAt(nh))) && idx != primaryOf(nh+1, 0, len(s.sc.ValsAt(nh+1))) {
 		// a slow application, but never the one that has to propose next: a late
 		// proposal is a fault of the application, not a matter of message order
 		d = s.tape.Range(st, 0, 12) * int64(s.sc.TPB) / 8
